@@ -309,6 +309,19 @@ def abort_points(tier, seed, stats, found, ref, probes, pool, t_end):
             picked.append((name, lst[rng.randrange(len(lst))]))
         if len(picked) >= k_ops:
             break
+    # ... and as many ops taken from the collision families: the op is aborted, and the same thread goes on with its family
+    # SIBLINGS (inputs chosen because they touch the same thing differently) instead of arbitrary ops of the same kind
+    fam_names = sorted(f for f in c['families'] if not f.startswith(('deep_', 'wide_', 'built_chains')))
+    rng.shuffle(fam_names)
+    sib = {}
+    for f in fam_names:
+        lst = [op for op in c['families'][f] if op['k'] != 'flow' and (gen._HINTS.get(O.op_key(op)) or ['ok', 1 << 30])[1] <= 15000]
+        if len(lst) >= 3:
+            op = lst[rng.randrange(len(lst))]
+            sib[len(picked)] = [o for o in lst if o is not op]
+            picked.append(('family:' + f, op))
+        if len(picked) >= 2 * k_ops:
+            break
     profs = {}
 
     def on_prof(spec, res):
@@ -325,17 +338,22 @@ def abort_points(tier, seed, stats, found, ref, probes, pool, t_end):
         pts = sorted(set(pr['firsts']) | set(pr['lasts']))
         if len(pts) > cap:
             pts = sorted(rng.sample(pts, cap))
-        kind_prefix = name.split('/')[0] + '/' + name.split('/')[1] + '/'
+        kind_prefix = (name.split('/')[0] + '/' + name.split('/')[1] + '/') if '/' in name else '\0'
         same_kind = [n_ for n_ in names if n_.startswith(kind_prefix)]
         light_ = lambda ops_: [o for o in ops_ if (gen._HINTS.get(O.op_key(o)) or ['ok', 1 << 30])[1] <= 15000]  # noqa
         acc = [o for n_ in same_kind if n_.endswith('/ok') for o in light_(st[n_])][:40]
         rej = [o for n_ in same_kind if n_.endswith('/err') for o in light_(st[n_])][:40]
+        if i in sib and len(pts) > cap // 2:
+            pts = sorted(rng.sample(pts, cap // 2))
         for j, e in enumerate(pts):
             later = [op]
-            if acc:
-                later.append(acc[(j * 7 + i) % len(acc)])
-            if rej:
-                later.append(rej[(j * 5 + i) % len(rej)])
+            if i in sib:
+                later += [sib[i][(j * 7 + i) % len(sib[i])], sib[i][(j * 5 + 3 * i + 1) % len(sib[i])]]
+            else:
+                if acc:
+                    later.append(acc[(j * 7 + i) % len(acc)])
+                if rej:
+                    later.append(rej[(j * 5 + i) % len(rej)])
             later.append(op)
             specs.append({
                 'cmd': 'sim', 'property': 'C20', 'sub': 'S2', 'seed': seed * 1_000_000 + 600_000 + len(specs), 'hashseed': gen.hashseed_for(len(specs)),
